@@ -76,6 +76,9 @@ public:
    */
   size_t getSize();
 
+  /** Stores the hash in the layout every representation loads from */
+  void save(std::ostream &fp);
+
   /** Loads a hash from a file*/
   static HashBdh *load(std::istream &fp);
 
